@@ -663,6 +663,13 @@ class JGen(sg.Gen):
             self.hist.append((wg.DM, batch))
             for h in batch:
                 self.kill(h)
+        elif k < 0.87 and self.dead and [h for h in self.hot if h in self.live]:
+            # a batch that fails part-way: component owners first, then a handle that is already dead
+            owners = [h for h in self.hot if h in self.live]
+            pre = rng.sample(owners, min(len(owners), rng.randint(1, 2)))
+            self.hist.append((wg.DM, pre + [rng.choice(self.dead)] + ([self.some_handle()] if rng.random() < 0.3 else [])))
+            for h in pre:
+                self.kill(h)
         else:
             self.hist.append((wg.M, []))
 
